@@ -103,6 +103,8 @@ class Enc:
     def __init__(self, fl: Flavour):
         self.fl = fl
         self.leaf = {(p, t): z3.Bool(f'{t}_{p}') for p in PARAMS for t in ('Send', 'Sync')}
+        # "the parameter satisfies the lifetime bounds an explicit impl asks for" (e.g. 'static): a borrowed payload does not
+        self.outlives = {p: z3.Bool(f'Outlives_{p}') for p in PARAMS}
         self.X = {}
         self.rules_used = set()
 
@@ -181,7 +183,8 @@ class Enc:
                 done.add((name, trait))
                 if (name, trait) in explicit:
                     bounds = explicit[(name, trait)]
-                    f = z3.And([self.leaf[(p, b)] for p in PARAMS for b in bounds[p] if b in ('Send', 'Sync')] or [z3.BoolVal(True)])
+                    f = z3.And([self.leaf[(p, b)] for p in PARAMS for b in bounds[p] if b in ('Send', 'Sync')]
+                               + [self.outlives[p] for p in PARAMS for b in bounds[p] if b.startswith("'")] or [z3.BoolVal(True)])
                     self.rules_used.add(f'explicit `unsafe impl {trait} for {name}` with its where-clause')
                 else:
                     path, fields = self.fl.structs[name]
@@ -249,6 +252,40 @@ fn main() {
     ROWS
 }
 '''
+
+
+def run_lifetime_probe():
+    """compile-only: every sync type instantiated with borrowed payloads must be Send + Sync for every lifetime;
+    -> list of (flavour, type) rows rustc rejects, or None if the probe cannot be judged"""
+    d = os.path.join(build.WORK, 'c16-life-probe')
+    os.makedirs(os.path.join(d, 'src'), exist_ok=True)
+    rows = [(fl, ty) for fl in SYNC for ty in ('Node', 'Edge', 'Graph')]
+    lines = ['fn need<T: Send + Sync>() {}', "pub fn probe<'a>() {"]
+    at = {}
+    for fl, ty in rows:
+        lines.append(f"    need::<gdsl::{fl}::{ty}<&'a str, &'a str, &'a str>>();")
+        at[len(lines)] = (fl, ty)
+    lines.append('}')
+    open(os.path.join(d, 'src', 'lib.rs'), 'w').write('\n'.join(lines) + '\n')
+    open(os.path.join(d, 'Cargo.toml'), 'w').write(
+        '[package]\nname = "c16-life-probe"\nversion = "0.1.0"\nedition = "2021"\n\n[workspace]\n\n[dependencies]\ngdsl = { path = "%s" }\n' % build.REPO)
+    lock = os.path.join(build.REPO, 'Cargo.lock')
+    if os.path.exists(lock) and not os.path.exists(os.path.join(d, 'Cargo.lock')):
+        open(os.path.join(d, 'Cargo.lock'), 'w').write(open(lock).read())
+    env = dict(build.ENV, CARGO_TARGET_DIR=os.path.join(build.WORK, 'c16-target'), RUSTFLAGS='-Awarnings')
+    r = subprocess.run(['cargo', 'check', '--offline', '--quiet'], cwd=d, env=env, stdout=subprocess.PIPE, stderr=subprocess.PIPE, text=True)
+    if r.returncode == 0:
+        return []
+    bad = set()
+    for m in re.finditer(r'--> src/lib\.rs:(\d+):', r.stderr):
+        if int(m.group(1)) in at:
+            bad.add(at[int(m.group(1))])
+    if not bad:
+        # errors that do not point at a row: e.g. the whole function body ('a must outlive 'static reported at the signature)
+        if "'static" in r.stderr or 'lifetime' in r.stderr:
+            return [('?', '?')]
+        return None
+    return sorted(bad)
 
 
 def run_probe():
@@ -338,6 +375,15 @@ def run(prop, tier, seed):
                 obligations.append(f'{fl}::{ty}: Send and Sync whenever K, N, E are all Send + Sync')
                 if r != z3.sat:
                     findings.append({'flavour': fl, 'type': ty, 'trait': 'Send+Sync', 'kind': 'too-restrictive', 'assignment': ['SS', 'SS', 'SS']})
+                # ... also when a payload borrows (is Send + Sync but does not outlive 'static)
+                for p in PARAMS:
+                    t = time.time()
+                    r = s.check(allsix, z3.Not(enc.outlives[p]), xs, xy)
+                    solver_s += time.time() - t
+                    queries += 1
+                    if r != z3.sat:
+                        findings.append({'flavour': fl, 'type': ty, 'trait': 'Send+Sync', 'kind': 'too-restrictive-lifetime', 'assignment': ['SS', 'SS', 'SS'], 'borrowed': p})
+                obligations.append(f'{fl}::{ty}: Send and Sync also for borrowed (non-static) payloads that are Send + Sync')
             else:
                 for tr, x in (('Send', xs), ('Sync', xy)):
                     t = time.time()
@@ -392,6 +438,16 @@ def run(prop, tier, seed):
                 native_viol.append({'flavour': fl, 'type': ty, 'trait': 'Send+Sync', 'kind': 'too-restrictive', 'assignment': [k, n, e]})
         elif ns or ny:
             native_viol.append({'flavour': fl, 'type': ty, 'trait': 'Send' if ns else 'Sync', 'kind': 'plain-type-shareable', 'assignment': [k, n, e]})
+    life = run_lifetime_probe()
+    if life is None:
+        rep.inconclusive.append({'inconclusive': 'lifetime probe crate fails to compile for a reason that is not a lifetime bound', 'item': ''})
+    else:
+        for fl, ty in life:
+            for f in findings:
+                if f['kind'] == 'too-restrictive-lifetime' and (fl == '?' or (f['flavour'], f['type']) == (fl, ty)):
+                    native_viol.append({'flavour': f['flavour'], 'type': f['type'], 'trait': 'Send+Sync', 'kind': 'too-restrictive-lifetime', 'assignment': ['SS', 'SS', 'SS']})
+            if not any(f['kind'] == 'too-restrictive-lifetime' for f in findings):
+                native_viol.append({'flavour': fl, 'type': ty, 'trait': 'Send+Sync', 'kind': 'too-restrictive-lifetime', 'assignment': ['SS', 'SS', 'SS']})
     known = load_known()
     os.makedirs(os.path.join(build.WORK, 'replays'), exist_ok=True)
     groups = {}
